@@ -5,7 +5,7 @@
    connection failure, silence until the deadline — the transports turn all of these into an error, C14/C01).
    [respond l m r] is mustHaveRespB + the listener's single write. *)
 From Mos Require Import Base.Prelude Codec.Name Codec.Msg Router.Rules Router.Edns Router.Router Router.RouterSpec
-  Router.RouterProofs.
+  Router.RouterProofs Cache.CachePolicy Router.Cached Router.CachedProofs.
 
 (* The response carries the query's ID, opcode and RD bit, QR=1 and RA=1 — for every query, configuration,
    upstream behaviour and client address. *)
@@ -89,6 +89,35 @@ Example C03_k4_example :
   let r := fst (handle (fun _ _ => false) [mkRule None 0 (Some 0)] false (fun _ _ => UReply k4_reply) k4_query ANone) in
   h_rcode (m_hdr r) = 2%N /\ m_qs r = [mkQuestion [1; 97]%N 1 1] /\ m_an r = [].
 Proof. vm_compute. auto. Qed.
+
+(* The same clauses on a CACHING proxy (Router/Cached.v: the request path composed with cacheCtl.Get/Store and the
+   prefetch), in every state reachable by any history of requests, prefetches, clock ticks, collections and evictions:
+   the header fix-up and the question clause hold for EVERY response, also one served from cache (the entry was stored
+   under the key of a question its own question section matches, and the key determines the question:
+   C07_cache_key_injective); and a request makes at most one upstream query, none when it is served from cache. *)
+Theorem C03_cached : forall matches rules ecs up ckey maxttl,
+  (forall u w r, up u w = UReply r -> count_opt (m_ar r) <= 1) ->
+  (forall q1 c1 q2 c2, ckey q1 c1 = ckey q2 c2 -> q1 = q2) ->
+  forall (clk : N) (evs : list cev) (t ts eps : Z) (m : msg) (client : addr),
+  let st := fst (crun matches rules ecs up ckey maxttl (init_state clk) evs) in
+  let o := snd (handle_c matches rules ecs up ckey maxttl st t ts eps m client) in
+  let r := co_resp o in
+  (h_id (m_hdr r) = h_id (m_hdr m) /\ h_opcode (m_hdr r) = h_opcode (m_hdr m) /\ h_resp (m_hdr r) = true /\
+   h_ra (m_hdr r) = true /\ h_rd (m_hdr r) = h_rd (m_hdr m)) /\
+  match m_qs r, m_qs m with
+  | [], _ => True
+  | [qr], q :: _ => q_eq_ci qr q = true
+  | _, _ => False
+  end /\
+  (co_cached o = true -> co_eff o = []) /\ length (co_eff o) <= 1 /\ (co_prefetch o = true -> co_cached o = true).
+Proof.
+  intros matches rules ecs up ckey maxttl H1 Hinj clk evs t ts eps m client st o r.
+  assert (Hi : cinv ckey st) by (apply (crun_inv matches rules ecs up ckey maxttl H1 Hinj); apply cinv_init).
+  split; [apply (handle_c_header matches rules ecs up ckey maxttl)|].
+  split; [apply (handle_c_question matches rules ecs up ckey maxttl H1 Hinj _ _ _ _ _ _ Hi)|].
+  apply (handle_c_effects matches rules ecs up ckey maxttl H1 Hinj _ _ _ _ _ _ Hi).
+Qed.
+Print Assumptions C03_cached.
 
 (* non-vacuity: a forwarded query whose upstream fails gets SERVFAIL with its own lower-cased question *)
 Example C03_example :
